@@ -321,6 +321,44 @@ func checkC17(res *Result) {
 			}
 			res.check(ok, "C17-R4", fname(f), p.pos(r), "'owned value found' is reported only where Owns (or the recursion) returned true", "facts: "+ff.describe(r))
 		}
+		// a negative answer only at the depth limit or after the whole search
+		var heads []*ssa.BasicBlock
+		var loops []map[*ssa.BasicBlock]bool
+		for _, ci := range E.byFn[f] {
+			isRec := false
+			for _, c := range ci.Callees {
+				if c == f {
+					isRec = true
+				}
+			}
+			if isRec || ci.Label == "Transport.Dereference" {
+				if lb := loopBlocks(ci.Instr.Block()); len(lb) > 0 {
+					if h := loopHeader(lb); h != nil {
+						heads = append(heads, h)
+						loops = append(loops, lb)
+					}
+				}
+			}
+		}
+		res.check(len(heads) >= 2, "C17-R4", fname(f), p.pos(f), "the search has a dereference loop and a recursion loop", fmt.Sprintf("%d loops found", len(heads)))
+		for _, r := range returnsIn(f) {
+			v := ff.resolve(r, r.Results[0])
+			if b, isC := boolConst(v); !isC || b {
+				continue
+			}
+			mayNil, mayNonNil := ff.errStatus(r, 1)
+			if !mayNil || mayNonNil {
+				continue // reports a failure
+			}
+			after := len(heads) >= 2
+			for i, h := range heads {
+				if !h.Dominates(r.Block()) || loops[i][r.Block()] {
+					after = false
+				}
+			}
+			atLimit := depthLimitReached(ff, f, r, "currDepth", "maxDepth")
+			res.check(after || atLimit, "C17-R4", fname(f), p.pos(r), "'nothing owned' is answered only at the depth limit or after every value has been fetched and searched", "this return gives up before the dereference and recursion loops although the depth limit has not been reached: an owned value reachable only through a bare IRI is not found")
+		}
 		for _, c := range findCalls(E, f, "Transport.Dereference") {
 			checkSkipOnFailure(res, p, "C17-R4", f, c.(*ssa.Call), "a value that cannot be fetched is skipped and the remaining values are still examined")
 		}
@@ -337,7 +375,19 @@ func checkC17(res *Result) {
 	}
 
 	// R6
-	for _, name := range []string{"sideEffectActor.InboxForwarding", "sideEffectActor.hasInboxForwardingValues", "getInboxForwardingValues", "sideEffectActor.deliverToRecipients"} {
+	r6names := []string{"sideEffectActor.InboxForwarding", "sideEffectActor.hasInboxForwardingValues", "getInboxForwardingValues", "sideEffectActor.deliverToRecipients"}
+	for _, n := range reachFrom(p, E, "sideEffectActor.InboxForwarding") {
+		dup := false
+		for _, m := range r6names {
+			if m == n {
+				dup = true
+			}
+		}
+		if !dup && p.HasFunc(n) {
+			r6names = append(r6names, n) // everything the forwarding path can call inside pub
+		}
+	}
+	for _, name := range r6names {
 		f := p.MustFunc(res, "C17-R6", name)
 		if f == nil {
 			continue
